@@ -12,10 +12,10 @@ Definition body_prop (body : option err -> st -> res * list obs * option err * s
   forall h s r l h' s', body h s = (r, l, h', s') -> forallb prop_ok l = true.
 
 Lemma nested_prop : forall body, body_prop body ->
-  forall h s r o h' s', nested E C fault body h s = (r, o, h', s') ->
+  forall h s r o h' s', nested0 E C fault body h s = (r, o, h', s') ->
   prop_ok o = true /\ exists e l x, o = OC e l x (cls_of r).
 Proof.
-  intros body HB h s r o h' s' H. unfold nested in H.
+  intros body HB h s r o h' s' H. unfold nested0 in H.
   destruct (c_nonest C).
   - destruct (body h s) as [[[r0 l0] h0] s0] eqn:Eb. apply HB in Eb. inversion H; subst.
     split; [|eexists; eexists; eexists; reflexivity].
@@ -33,10 +33,20 @@ Proof.
       pose proof (prop_OC_same _ (RPan p) Eb) as K. cbn [forallb] in K. rewrite andb_true_r in K. exact K.
 Qed.
 
+Lemma nested_cx_prop : forall cx body, body_prop body ->
+  forall h s r o h' s', nested E C fault cx body h s = (r, o, h', s') ->
+  prop_ok o = true /\ exists e l x, o = OC e l x (cls_of r).
+Proof.
+  intros cx body HB h s r o h' s' H. unfold nested in H. destruct cx.
+  - destruct (nested0 E C fault body h (set_dead s false)) as [[[r0 o0] h0] s0] eqn:En.
+    apply (nested_prop _ HB) in En. inversion H; subst. exact En.
+  - apply (nested_prop _ HB) in H. exact H.
+Qed.
+
 Lemma run_body_prop : forall p, body_prop (run_body E C fault p).
 Proof.
-  induction p as [o | m chk k IHk | chk k IHk | b IHb chk rcv k IHk | n k IHk | n k IHk];
-    intros h s r l h' s' H; cbn [run_body] in H.
+  induction p as [o | m chk k IHk | chk k IHk | b IHb chk rcv cx k IHk | n k IHk | n k IHk | k IHk];
+    intros h s r l h' s' H; cbn [run_body] in H; [| | | | | |apply IHk in H; exact H].
   - destruct o; inversion H; subst; reflexivity.
   - destruct (h_stmt fault (Some m) h s) as [[e n0] s1].
     destruct e as [e|]; [destruct chk|].
@@ -48,8 +58,8 @@ Proof.
     + inversion H; subst. reflexivity.
     + destruct (run_body E C fault k h s1) as [[[r0 l0] h0] s0] eqn:Ek. apply IHk in Ek. inversion H; subst. exact Ek.
     + destruct (run_body E C fault k h s1) as [[[r0 l0] h0] s0] eqn:Ek. apply IHk in Ek. inversion H; subst. exact Ek.
-  - destruct (nested E C fault (run_body E C fault b) h s) as [[[r0 o0] h1] s1] eqn:En.
-    apply (nested_prop _ IHb) in En. destruct En as [En _].
+  - destruct (nested E C fault cx (run_body E C fault b) h s) as [[[r0 o0] h1] s1] eqn:En.
+    apply (nested_cx_prop _ _ IHb) in En. destruct En as [En _].
     destruct r0.
     + destruct (run_body E C fault k h1 s1) as [[[r1 l1] h2] s2] eqn:Ek. apply IHk in Ek.
       inversion H; subst. cbn [forallb]. rewrite En, Ek. reflexivity.
@@ -85,15 +95,14 @@ Proof.
     destruct (run_body E C fault p None s1) as [[[r l] h] s2] eqn:Eb.
     apply run_body_prop in Eb. unfold finish in H.
     destruct r.
-    + destruct (h_end fault true h s2) as [h2 s3]. destruct h2 as [e|].
-      * destruct manual.
-        -- destruct (run_extra fault extra (Some e) s3). inversion H; subst. cbn. exact Eb.
-        -- destruct (h_end fault false (Some e) s3). inversion H; subst. cbn. exact Eb.
-      * destruct (run_extra fault (if manual then extra else []) None s3). inversion H; subst. cbn. exact Eb.
-    + destruct (h_end fault false h s2) as [h2 s3].
-      destruct (run_extra fault (if manual then extra else []) h2 s3). inversion H; subst.
+    + destruct (h_end C fault true h s2) as [h2 s3]. destruct h2 as [e|].
+      * destruct (h_end C fault false (Some e) s3) as [h4 s4].
+        destruct (run_extra C fault (if manual then extra else []) h4 s4). inversion H; subst. cbn. exact Eb.
+      * destruct (run_extra C fault (if manual then extra else []) None s3). inversion H; subst. cbn. exact Eb.
+    + destruct (h_end C fault false h s2) as [h2 s3].
+      destruct (run_extra C fault (if manual then extra else []) h2 s3). inversion H; subst.
       unfold top_prop. rewrite cls_eqb_refl, Eb. reflexivity.
-    + destruct (h_end fault false h s2) as [h2 s3]. inversion H; subst.
+    + destruct (h_end C fault false h s2) as [h2 s3]. inversion H; subst.
       unfold top_prop. rewrite cls_eqb_refl, Eb. reflexivity.
 Qed.
 End PropSec.
@@ -105,6 +114,7 @@ Hypothesis rollback_to_exact : forall n t, sq_rbto E n t = ref_rbto n t.
 Hypothesis tx_end_releases : forall l, bal false l = true -> pool E l = (0, 0).
 Variable C : cfg.
 Hypothesis savepoints : c_nosp C = false.
+Hypothesis hard_commit : c_soft C = false.
 Variable fault : nat -> bool.
 
 (* connection back in the pool, no transaction open — whatever the program, the outcomes, the
@@ -119,20 +129,20 @@ Qed.
 (* a failing nested block undoes exactly its own writes: the transaction sees the table as it
    was when the block started, the program's save points are as they were, and the enclosing
    handle is returned exactly as it was (the enclosing transaction stays usable) *)
-Theorem nested_isolated : forall b h s r o h1 s1 t stk,
-  c_nonest C = false -> scoped [] b = true ->
-  nested E C fault (run_body E C fault b) h s = (r, o, h1, s1) ->
+Theorem nested_isolated : forall cx b h s r o h1 s1 t stk,
+  c_nonest C = false -> scoped [] b = true -> no_cancel b = true ->
+  nested E C fault cx (run_body E C fault b) h s = (r, o, h1, s1) -> s_dead s = false ->
   s_tx s = Some (mkTx t stk) -> gen_ok (s_gen s) stk ->
   x_rb (s_fl s1) = false -> x_drop (s_fl s1) = false ->
   h1 = h /\
   (is_ok r = false -> exists stk', s_tx s1 = Some (mkTx t stk') /\ fu stk' = fu stk).
 Proof.
-  intros b h s r o h1 s1 t stk Hn Hsc H Htx Hg Hrb Hdr.
+  intros cx b h s r o h1 s1 t stk Hn Hsc Hnc H Hdead Htx Hg Hrb Hdr.
   assert (HBS : body_spec C (run_body E C fault b)).
-  { intros hc sc rc lc hc' sc' tc basec Eb Htc Hgc Hrc Hdc.
-    apply (body_inv E savepoint_pushes rollback_to_exact C savepoints fault b [] hc sc rc lc hc' sc' tc [] basec Eb Htc (sub_nil _) Hsc Hgc Hrc Hdc). }
-  destruct (nested_step E savepoint_pushes rollback_to_exact C savepoints fault _ HBS (run_body_flags E C fault b)
-              h s r o h1 s1 t [] stk H Htx Hg Hrb Hdr)
+  { intros hc sc rc lc hc' sc' tc basec Eb Hd0 Htc Hgc Hrc Hdc.
+    apply (body_inv E savepoint_pushes rollback_to_exact C savepoints fault b [] hc sc rc lc hc' sc' tc [] basec Eb Hd0 Hnc Htc (sub_nil _) Hsc Hgc Hrc Hdc). }
+  destruct (nested_cx_step E savepoint_pushes rollback_to_exact C savepoints fault cx _ HBS (run_body_flags E C fault b)
+              h s r o h1 s1 t [] stk H Hdead Htx Hg Hrb Hdr)
     as [Eh [[t1 [local1 [l0 [Eo' [St _]]]]] | [e [_ [Eo' St]]]]]; (split; [exact Eh|]); intro Hr.
   - destruct St as (A1 & A2 & _).
     rewrite Eo', spec_OC, Hn in A2. cbn [negb app] in A2.
@@ -146,17 +156,17 @@ Qed.
 (* the property as the checker evaluates it, on the model's own output *)
 Theorem spec_holds_model : forall manual p extra o x s,
   run_top E C fault manual p extra (init_st []) = (o, x, s) ->
-  scoped [] p = true ->
+  scoped [] p = true -> no_cancel p = true ->
   x_rb (s_fl s) = false -> x_drop (s_fl s) = false ->
   spec_holds (mk_case manual p extra [] C None o x [] (s_db s)
                 (fst (pool E (rev (s_txlog s)))) (snd (pool E (rev (s_txlog s)))) (rev (s_ops s))) = true.
 Proof.
-  intros manual p extra o x s H Hsc Hrb Hdr.
-  unfold spec_holds; cbn [o_in_use o_open_tx o_top o_ops o_table c_cfg].
+  intros manual p extra o x s H Hsc Hnc Hrb Hdr.
+  unfold spec_holds; cbn [o_in_use o_open_tx o_top o_ops o_table c_cfg c_prog c_extra o_extra].
   rewrite (released _ _ _ _ _ _ _ H). cbn [fst snd Z.eqb andb].
-  destruct (top_spec E savepoint_pushes rollback_to_exact C savepoints fault _ _ _ _ _ _ _ H Hsc Hrb Hdr) as [Hat [Ht Hu]].
-  unfold usable_cfg. rewrite savepoints.
-  rewrite <- Hat, same_set_refl, Ht, Hu. apply orb_true_r.
+  destruct (top_spec E savepoint_pushes rollback_to_exact C savepoints hard_commit fault _ _ _ _ _ _ _ H Hsc Hnc Hrb Hdr) as [Hat [Ht [Hu Hx]]].
+  unfold usable_cfg. rewrite savepoints, Hnc. cbn [negb]. fold (usable o (rev (s_ops s))).
+  rewrite <- Hat, same_set_refl, Ht, Hu, Hx. apply orb_true_r.
 Qed.
 End Whole.
 
@@ -180,12 +190,12 @@ Proof.
 Qed.
 
 (* ------------------------------------------------------------------ witnesses *)
-Definition cfg_default := mk_cfg false false false true false.
-Definition cfg_stock := mk_cfg false false false false false.
+Definition cfg_default := mk_cfg false false false true false false false.
+Definition cfg_stock := mk_cfg false false false false false false false.
 (* tx.Create(1); tx.Transaction(create 2) with its error ignored; tx.Create(3); return nil *)
-Definition sticky_prog := Write 1 true (Child (Write 2 true (Done RetNil)) false false (Write 3 false (Done RetNil))).
+Definition sticky_prog := Write 1 true (Child (Write 2 true (Done RetNil)) false false false (Write 3 false (Done RetNil))).
 (* the same with a nested block that fails *)
-Definition stock_prog := Write 1 true (Child (Write 2 true (Done (RetErr 1))) false false (Write 3 false (Done RetNil))).
+Definition stock_prog := Write 1 true (Child (Write 2 true (Done (RetErr 1))) false false false (Write 3 false (Done RetNil))).
 
 (* the input of the former finding (fixed in /repo by 1c49b86): a fault on the SAVEPOINT of a
    nested block whose error the enclosing function ignores. The nested call reports the fault, the
@@ -208,9 +218,22 @@ Proof. exists cfg_stock, stock_prog, 2%nat. vm_compute. repeat split. Qed.
    statement, meeting every hypothesis of the theorems, with a non-trivial durable set *)
 Definition demo_prog :=
   Write 1 true (Save 7 (Write 2 true (Child
-     (Write 3 true (Child (Write 4 true (Done (RetErr 5))) true false (Done RetNil))) false false
+     (Write 3 true (Child (Write 4 true (Done (RetErr 5))) true false false (Done RetNil))) false false false
      (RbTo 7 (Write 6 true (Write 8 false (Done RetNil))))))).
 Lemma demo_instance :
   scoped [] demo_prog = true /\ let '(o, x, s) := run_top ref_env cfg_default (fault_at (Some 12%nat)) false demo_prog [] (init_st []) in
   x_rb (s_fl s) = false /\ x_drop (s_fl s) = false /\ s_db s = [1; 6].
+Proof. vm_compute. repeat split. Qed.
+
+(* REFUTED (gorm HEAD b890351, a finding): a nested block started as
+   tx.WithContext(ctx).Transaction(..) whose ctx is cancelled inside it and which then fails is
+   NOT undone — its deferred ROLLBACK TO SAVEPOINT is issued under the cancelled ctx and never
+   reaches the database; the enclosing block commits the nested block's write *)
+Definition cancel_prog :=
+  Write 1 true (Child (Write 2 true (Cancel (Done (RetErr 1)))) false false true (Write 3 false (Done RetNil))).
+Lemma cancel_witness :
+  scoped [] cancel_prog = true /\ no_cancel cancel_prog = false /\
+  let '(o, x, s) := run_top ref_env cfg_default (fault_at None) false cancel_prog [] (init_st []) in
+  x_rb (s_fl s) = false /\ x_drop (s_fl s) = false /\
+  s_db s = [1; 2; 3] /\ spec_final true o (rev (s_ops s)) [] = [1; 3].
 Proof. vm_compute. repeat split. Qed.
